@@ -342,7 +342,9 @@ func c18Harnesses(prog *MProgram) []Harness {
 	var hs []Harness
 	for _, f := range prog.Files {
 		for _, s := range f.Structs {
-			th := tuples(seq(0, 1), seq(0, 2))
+			// thorough adds independent pairs (mode 0) to the quick bound; length-2 containers and
+			// three-element sets were tried and did not finish within 50 minutes (section 10.4)
+			th := tuples(seq(0, 1), seq(0, 1))
 			if containerHeavy(&s) {
 				// measured: independent x, y with every container of length 2 does not finish in the thorough budget
 				th = tuples(seq(0, 1), seq(0, 1)) // (mirrored pairs of length 2 did not finish in 45 min either)
@@ -351,7 +353,7 @@ func c18Harnesses(prog *MProgram) []Harness {
 			hs = append(hs, Harness{Func: "H_C18_nil_" + s.Name, Covers: []string{"end"}})
 			for _, fl := range s.Fields {
 				if fl.Type.Kind == "set" {
-					hs = append(hs, Harness{Func: "H_C18_setdup_" + s.Name, Quick: rng(2, 2), Thorough: rng(2, 3), Covers: []string{"dup", "nodup"}})
+					hs = append(hs, Harness{Func: "H_C18_setdup_" + s.Name, Quick: rng(2, 2), Thorough: rng(2, 2), Covers: []string{"dup", "nodup"}})
 					break
 				}
 			}
@@ -364,7 +366,7 @@ func init() {
 	register(&Prop{
 		ID: "C18", QuickBudget: 25 * time.Minute, ThoroughBudget: 90 * time.Minute,
 		Functions:   []string{"generated (*T).DeepEqual and FieldNDeepEqual for every struct-like of the corpus", "generated Write (set uniqueness validation)", "strings.Compare / bytes.Compare"},
-		Bounds:      "two independent symbolic values x, y of every struct-like of the corpus (all leaves full-width symbolic, optional presence symbolic, map keys symbolic so key sets may differ), containers/strings of length n (quick 0..1, thorough 0..2; the container-heavy struct: up to length 1); set validation with 2 (thorough 3) free elements per set",
+		Bounds:      "two independent symbolic values x, y of every struct-like of the corpus (all leaves full-width symbolic, optional presence symbolic, map keys symbolic so key sets may differ), containers/strings of length n in 0..1; quick: y mirrors the presence structure of x except one free member, thorough: also fully independent pairs; set validation with 2 free elements per set",
 		Assumptions: []string{"doubles are not NaN (the statement does not say)", "struct-typed map values and list elements are non-nil", "struct-typed map keys are outside the corpus", "the programs dimension is the designed corpus"},
 		Variants: []*Prop{
 			genVariantCorpus("gen_deep_equal", "gen_deep_equal", genOpts{}, "zzgen/a", entryC18, c18Harnesses, corpusNoStructSet),
